@@ -20,7 +20,7 @@ pub fn sigma05() -> Vec<char> {
 }
 
 pub fn run(env: &Env, run: &Run) -> (Stats, Coverage) {
-    let sigma = sigma05();
+    let sigma = crate::sig::rotated(env, sigma05(), run.seed);
     let n = run.tier.pick(5, 6);
     let p = Prof::Opaque;
     let mut st = strtree(&sigma, n, |_chars, s, st| {
